@@ -1,5 +1,17 @@
+#[cfg(metrics_verif)]
+use super::verif_net::{UdpSocket, UnixDatagram, UnixStream};
+#[cfg(metrics_verif)]
+use metrics::__verif::{thread::sleep, time::Instant};
+#[cfg(metrics_verif)]
+use std::{
+    io::{self, Write as _},
+    net::Ipv4Addr,
+    sync::Arc,
+};
+#[cfg(not(metrics_verif))]
 #[cfg(unix)]
 use std::os::unix::net::{UnixDatagram, UnixStream};
+#[cfg(not(metrics_verif))]
 use std::{
     io::{self, Write as _},
     net::{Ipv4Addr, UdpSocket},
